@@ -96,6 +96,19 @@ theorem C18_rate (cfg : RateLimitConfig) (U : Nat) (hwf : cfg.Burst * U ≤ cfg.
   refine ⟨rlRun_length cfg U es _, fun ip _ => ?_⟩
   exact stretches cfg U hwf ip es 0 _ hs (fun x hx => by cases hx)
 
+/-- **Rate and burst with overlapping calls.** The same bound when `AllowIP` calls of any addresses
+overlap arbitrarily: each call may be cut into its critical sections (lookup under the table's read
+lock; on a miss the create section under the write lock; `Take` under the bucket's lock) with any
+other step — other calls of the same address, clean-up passes that drop the very bucket a call in
+flight is holding — in between.  In particular any number of simultaneous first contacts of one
+address share one bucket. -/
+theorem C18_rate_overlapping (cfg : RateLimitConfig) (U : Nat) (hwf : cfg.Burst * U ≤ cfg.Rate * cfg.TTL)
+    (es : List (Nat × XEv)) (hs : Sorted 0 es) :
+    holdsRLX cfg U es (xRun cfg U es XState.empty) = true := by
+  simp only [holdsRLX, Bool.and_eq_true, beq_iff_eq, List.all_eq_true]
+  refine ⟨xRun_length cfg U es _, fun ip _ => ?_⟩
+  exact xstretches cfg U hwf ip es 0 _ hs (fun x hx => by cases hx)
+
 /-- **Handshake.** Every response of `HandleHandshake` in the model is the reference's: `blk` exactly
 when the ledger says blacklisted, else `ban` exactly when the ledger says locked (in both cases
 nothing is recorded and no token is taken, `C18_refused_is_inert`), and the anonymous registrations
@@ -285,6 +298,32 @@ example :
     hRun ⟨⟨2, 70, 50, 9⟩, ⟨0, 5, 1000000⟩, 1000⟩
       [(20, .hs 1 .expired), (20, .hs 1 .expired), (20, .hs 1 .unknown), (20, .hs 1 .good)] HState.empty
       = [some .fail, some .fail, some .fail, some .ok] := by decide
+
+/-- five simultaneous first contacts of one address, all looked up before any bucket exists: they
+share one bucket — burst 2 admits two.  Two calls holding a bucket that the clean-up pass then drops
+are refused (repaired by 3af3f3b), the next call starts a fresh bucket. -/
+example :
+    xRun ⟨20, 2, 210⟩ 1000 [(1, .lookup 1), (1, .lookup 1), (1, .lookup 1), (1, .lookup 1), (1, .lookup 1),
+        (1, .create 1 0), (1, .create 1 1), (1, .take 1 0), (1, .take 1 0), (1, .create 1 0), (1, .take 1 0),
+        (1, .create 1 0), (1, .take 1 0), (1, .create 1 0), (1, .take 1 0)] XState.empty
+      = [none, none, none, none, none, none, none, some true, some true, none, some false, none, some false, none, some false] ∧
+    xRun ⟨20, 2, 210⟩ 1000 [(1, .allow 1), (300, .lookup 1), (300, .lookup 1), (300, .cleanup), (300, .take 1 0),
+        (300, .take 1 0), (300, .allow 1), (300, .allow 1), (300, .allow 1)] XState.empty
+      = [some true, none, none, none, some false, some false, some true, some true, some false] := by decide
+
+/-- **Witnesses of the two regressions the split exists for**, on the bound itself: (a) every
+simultaneous first contact drawing from a private full bucket (5 admitted, burst 2); (b) calls that
+keep drawing from a bucket the clean-up pass dropped while later calls get a fresh one (4 admitted at
+one instant, burst 2). -/
+theorem private_bucket_witness :
+    holdsRLX ⟨20, 2, 210⟩ 1000
+      [(1, .lookup 1), (1, .lookup 1), (1, .lookup 1), (1, .create 1 0), (1, .take 1 0), (1, .create 1 0), (1, .take 1 0),
+       (1, .create 1 0), (1, .take 1 0)]
+      [none, none, none, none, some true, none, some true, none, some true] = false ∧
+    holdsRLX ⟨20, 2, 210⟩ 1000
+      [(1, .allow 1), (300, .lookup 1), (300, .lookup 1), (300, .cleanup), (300, .take 1 0), (300, .take 1 0),
+       (300, .allow 1), (300, .allow 1)]
+      [some true, none, none, none, some true, some true, some true, some true] = false := by decide
 
 /-- a locked address is refused whatever kind of handshake it tries, then admitted again. -/
 example :
